@@ -1,3 +1,4 @@
+import Bpmn.Props.EngineSteps
 import Bpmn.Props.C01
 import Bpmn.Props.EngineCurrent
 import Bpmn.Props.C01Conformance
@@ -38,3 +39,5 @@ open Bpmn.Props.C01 Bpmn.Props.EngineCurrent Bpmn.Props.C01Conformance
 #print axioms Bpmn.Props.C01FragmentCurrent.current_noIncl_never_deviates
 #print axioms Bpmn.Props.C01Fragment.throwFuse_hypothesis_needed
 #print axioms Bpmn.Props.EngineCurrent.current_throwPasses_ok
+#print axioms Bpmn.Props.EngineSteps.throw_step_passes
+#print axioms Bpmn.Props.EngineSteps.throw_step_fused
